@@ -24,10 +24,11 @@ func (oracleC09) Step(x *OCtx, t *Trans) []Violation {
 	add := func(clause, disc, detail string) { out = append(out, viol("C09", clause, kind, disc, detail)) }
 
 	// kills made by the owning module from inside a callback during this step (keeper API)
-	cbKilled := map[string]bool{}
+	cbKilled, cbSelf := map[string]bool{}, map[string]bool{}
 	for _, cb := range t.Res.Callbacks {
-		if cb.Kind == "kill" {
+		if cb.Kind == "kill" || cb.Kind == "selfkill" {
 			cbKilled[cb.Ctx] = true
+			cbSelf[cb.Ctx] = cb.Kind == "selfkill"
 		}
 	}
 	// contexts that exist before the step
@@ -87,7 +88,11 @@ func (oracleC09) Step(x *OCtx, t *Trans) []Violation {
 			}
 		}
 		if cbKilled[id] && qs != "completed" {
-			add("completed-is-final", "kill-undone/"+qs, fmt.Sprintf("context %s was killed by its module during this step (the kill succeeded) but is %s afterwards", name, qs))
+			disc := "kill-undone/" + qs
+			if cbSelf[id] {
+				disc = "kill-from-response-callback-undone/" + qs
+			}
+			add("completed-is-final", disc, fmt.Sprintf("context %s was killed by its module during this step (the kill succeeded) but is %s afterwards", name, qs))
 		}
 		// a running context whose batch is due in this block either gets it (issued or skipped) or is paused for funds
 		if kind == "E" && ps == "running" {
@@ -239,7 +244,11 @@ func (oracleC11) Invariant(x *OCtx, v *View, m *Mon) []Violation {
 		if s == "running" {
 			x.Wit("C11:running-context-state")
 			if n != 1 {
-				add("running-context-has-exactly-one-pending-event", fmt.Sprintf("events=%d", n), fmt.Sprintf("running context %s has %d pending events", x.Sc.ctxName(id), n))
+				disc, how := fmt.Sprintf("events=%d", n), ""
+				if m != nil && m.Restarted[id] {
+					disc, how = disc+"/restarted-in-state-callback", " (its owning module started it again from inside the state callback)"
+				}
+				add("running-context-has-exactly-one-pending-event", disc, fmt.Sprintf("running context %s has %d pending events%s", x.Sc.ctxName(id), n, how))
 			}
 		} else if n > 1 {
 			add("at-most-one-pending-event", s, fmt.Sprintf("%s context %s has %d pending events", s, x.Sc.ctxName(id), n))
@@ -382,6 +391,17 @@ func (oracleC16) Step(x *OCtx, t *Trans) []Violation {
 		}
 		if left > 0 {
 			out = append(out, viol("C16", "expired-batch-records-removed", "E", stName(pc.State), fmt.Sprintf("%d records of batch %d of context %s remain after its expiry block", left, pc.BatchCounter, name)))
+		}
+		// killed by its owning module from inside a callback during this very end-of-block: if its expiry was handled
+		// after the kill it is gone, if before it remains - completed
+		for _, cb := range t.Res.Callbacks {
+			if (cb.Kind == "kill" || cb.Kind == "selfkill") && cb.Ctx == id {
+				x.Wit("C16:killed-in-callback-while-its-batch-expires")
+				if qc, still := t.Post.Ctxs[id]; still && stName(qc.State) != "completed" {
+					out = append(out, viol("C16", "finished-context-removed", "E", "killed-in-callback/"+stName(qc.State),
+						fmt.Sprintf("context %s was killed by its module during the block in which its batch %d expired and is %s afterwards", name, pc.BatchCounter, stName(qc.State))))
+				}
+			}
 		}
 		finished := ""
 		switch {
